@@ -9,6 +9,10 @@ def base_from_log(log):
     if b is None:
         raise common.MachineryError('MC module did not print its BASE line')
     calls, heap, names = b[1], b[2], b[3]
+    if len(b) > 4:
+        from . import apiexec
+        if b[4] != apiexec.SLICE_TAB:
+            raise common.MachineryError('apiexec.SLICE_TAB differs from Api.SliceTab')
     if isinstance(names, tuple) and names[0] == 'set':
         names = names[1]
     return calls, heap, [tuple(n) for n in names]
